@@ -399,6 +399,33 @@ MUTANTS = [
     m("C17-generator-seeded-by-a-key-that-may-be-none", "C17", "rng-local-seed@lobpcg", LOB, "    rng = np.random.default_rng(42 if key is None else np.asarray(key))", "    rng = np.random.default_rng(key)"),
     m("C20-sliced-dense-form-pairs-the-index-arrays", "C20", "outer-selection@Sliced", OPS, "    def __str__(self):\n        has_length = hasattr(self.slices[0], '__len__')",
       "    def _entries(self, table):\n        return table[self.slices]\n\n    def __str__(self):\n        has_length = hasattr(self.slices[0], '__len__')"),
+    # ---------------------------------------------------------------- round 9 rules: firing mutants and their silent twins
+    m("C04-isqrt-forwards-alg-to-inv", "C04", "forwarded-algorithm@isqrt(", UNARY, "    return pow(A, -0.5, alg)", "    return inv(sqrt(A, alg), alg)"),
+    m("C04-silent-isqrt-inv-of-root", "C04", "", UNARY, "    return pow(A, -0.5, alg)", "    return inv(sqrt(A, alg))", silent=True),
+    m("C09-silent-isqrt-inv-of-root", "C09", "", UNARY, "    return pow(A, -0.5, alg)", "    return inv(sqrt(A, alg))", silent=True),
+    m("C14-lanczos-drops-tol", "C14", "option-passthrough@lanczos->lanczos_fact:tol", LAN, "lanczos_fact(A, init_val, max_iters, tol)", "lanczos_fact(A, init_val, max_iters=max_iters)"),
+    m("C14-silent-lanczos-keywords", "C14", "", LAN, "lanczos_fact(A, init_val, max_iters, tol)", "lanczos_fact(A, init_val, tol=tol, max_iters=max_iters)", silent=True),
+    m("C17-hutch-drops-rand", "C17", "option-passthrough@Hutch.__call__->hutchinson_diag_estimate:rand", DEST, "hutchinson_diag_estimate(A, k, **self.__dict__)[0]",
+      "hutchinson_diag_estimate(A, k, bs=self.bs, tol=self.tol, max_iters=self.max_iters, pbar=self.pbar, key=self.key)[0]"),
+    m("C17-silent-hutch-explicit-keywords", "C17", "", DEST, "hutchinson_diag_estimate(A, k, **self.__dict__)[0]",
+      "hutchinson_diag_estimate(A, k, bs=self.bs, tol=self.tol, max_iters=self.max_iters, pbar=self.pbar, key=self.key, rand=self.rand)[0]", silent=True),
+    m("C12-mean-residual-stop", "C12", "stopping-test@cg:cond", CG, "res_meet = xnp.any(rs > tol)", "res_meet = xnp.mean(rs) > xnp.mean(tol)"),
+    m("C16-pinv-signed-mask", "C16", "zero-mask@pinv(Diagonal", PINV, "    return Diagonal(1. / A.diag)",
+      "    xnp, d = A.xnp, A.diag\n    keep = d > 0\n    return Diagonal(xnp.where(keep, 1. / xnp.where(keep, d, xnp.ones_like(d)), xnp.zeros_like(d)))"),
+    m("C16-silent-pinv-magnitude-mask", "C16", "", PINV, "    return Diagonal(1. / A.diag)",
+      "    xnp, d = A.xnp, A.diag\n    keep = xnp.abs(d) > 0\n    return Diagonal(xnp.where(keep, 1. / xnp.where(keep, d, xnp.ones_like(d)), xnp.zeros_like(d)))", silent=True),
+    m("C08-kronsum-trace-mirrored-sizes", "C08", "trace-rule@trace(KronSum", DIAG, "@dispatch\ndef trace(A: Kronecker, alg: Algorithm):",
+      "@dispatch\ndef trace(A: KronSum, alg: Algorithm):\n    dims = [M.shape[-1] for M in A.Ms]\n    return sum(trace(M, alg) * n for M, n in zip(A.Ms, reversed(dims)))\n\n\n@dispatch\ndef trace(A: Kronecker, alg: Algorithm):"),
+    m("C03-kron-diag-fusion-swapped", "C03", "rewrite-rule@kron(Diagonal,Kronecker)", FNS, "@dispatch\ndef kron(A: Kronecker, B: Kronecker):",
+      "@dispatch\ndef kron(A: Diagonal, B: Kronecker):\n    if isinstance(B.Ms[0], Diagonal):\n        return Kronecker(*((kron(B.Ms[0], A), ) + B.Ms[1:]))\n    return Kronecker(*((A, ) + B.Ms))\n\n\n@dispatch\ndef kron(A: Kronecker, B: Kronecker):"),
+    m("C03-silent-kron-diag-fusion", "C03", "", FNS, "@dispatch\ndef kron(A: Kronecker, B: Kronecker):",
+      "@dispatch\ndef kron(A: Diagonal, B: Kronecker):\n    if isinstance(B.Ms[0], Diagonal):\n        return Kronecker(*((kron(A, B.Ms[0]), ) + B.Ms[1:]))\n    return Kronecker(*((A, ) + B.Ms))\n\n\n@dispatch\ndef kron(A: Kronecker, B: Kronecker):", silent=True),
+    m("C03-silent-kron-tail-fusion", "C03", "", FNS, "@dispatch\ndef kron(A: Kronecker, B: Kronecker):",
+      "@dispatch\ndef kron(A: Kronecker, B: Diagonal):\n    if isinstance(A.Ms[-1], Diagonal):\n        return Kronecker(*(A.Ms[:-1] + (kron(A.Ms[-1], B), )))\n    return Kronecker(*(A.Ms + (B, )))\n\n\n@dispatch\ndef kron(A: Kronecker, B: Kronecker):", silent=True),
+    m("C07-householder-unit-vector-assumed", "C07", "dependence@slogdet(Householder", LOGDET, "@dispatch\ndef slogdet(A: Permutation, log_alg: Algorithm, trace_alg: Algorithm):",
+      "@dispatch\ndef slogdet(A: Householder, log_alg: Algorithm, trace_alg: Algorithm):\n    xnp = A.xnp\n    det = 1. - A.beta\n    return det / xnp.abs(det), xnp.log(xnp.abs(det))\n\n\n@dispatch\ndef slogdet(A: Permutation, log_alg: Algorithm, trace_alg: Algorithm):"),
+    m("C07-silent-householder-lemma", "C07", "", LOGDET, "@dispatch\ndef slogdet(A: Permutation, log_alg: Algorithm, trace_alg: Algorithm):",
+      "@dispatch\ndef slogdet(A: Householder, log_alg: Algorithm, trace_alg: Algorithm):\n    xnp = A.xnp\n    det = 1. - A.beta * xnp.sum(xnp.conj(A.vec) * A.vec)\n    return det / xnp.abs(det), xnp.log(xnp.abs(det))\n\n\n@dispatch\ndef slogdet(A: Permutation, log_alg: Algorithm, trace_alg: Algorithm):", silent=True),
 ]
 
 
@@ -425,4 +452,7 @@ def _seed_mutants():
     return out
 
 
+for _m in MUTANTS:
+    if _m["id"].startswith("C07-") and "householder" in _m["id"]:
+        _m["edits"].append(dict(file=LOGDET, old="    Diagonal,\n    Identity,\n", new="    Diagonal,\n    Householder,\n    Identity,\n"))
 MUTANTS += _seed_mutants()
